@@ -226,7 +226,7 @@ def compare_with_model(res, pending, stats):
         if m != p["impl"]:
             what = "row count" if len(m) != len(p["impl"]) else "recorded parameters"
             res.corr_failures.append(Violation(
-                "provenance-model-differs", f"{p['label']}: provenance table differs from the Lean model in {what}: impl {str(p['impl'][-1])[:200]} / model {str(m[-1] if m else None)[:200]}",
+                "provenance-model-differs", f"{p['label']}: provenance table differs from the Lean model in {what}: impl {str(p['impl'][-1:])[:200]} / model {str(m[-1:])[:200]}",
                 dict(p["replay"], model_case=p["text"], impl=p["impl"], model=m), "B"))
 
 
